@@ -196,6 +196,30 @@ class Driver:
         return out
 
 
+class LiveDriver:
+    """A persistent driver process: one request, one reply."""
+
+    def __init__(self):
+        if not os.path.exists(DRIVER):
+            raise Infra("driver not built")
+        self.p = subprocess.Popen([DRIVER], stdin=subprocess.PIPE, stdout=subprocess.PIPE, text=True, bufsize=1)
+
+    def ask(self, req):
+        self.p.stdin.write(json.dumps(req, separators=(",", ":")) + "\n")
+        self.p.stdin.flush()
+        line = self.p.stdout.readline()
+        if not line:
+            raise Infra("driver died")
+        return json.loads(line)
+
+    def close(self):
+        try:
+            self.p.stdin.close()
+            self.p.wait(timeout=5)
+        except Exception:
+            self.p.kill()
+
+
 def cps(s):
     return [ord(c) for c in s]
 
